@@ -127,6 +127,27 @@ CLAIMED["C14"] = dict(
          "numerics are a Section parameter; NumPy's split points, row-major concatenate and allclose broadcasting are transcribed; in-place operators and metadata not modelled.",
     technique="Coq proof over an executable model with abstract cells and abstract NumPy functions + extracted-model/implementation correspondence",
     design="5 C14")
+CLAIMED["C10"] = dict(
+    text="Proof relative to validated effect summaries: on an explicit heap (objects hold locations), if every operation writes only locations it allocated itself then at every "
+         "point of every history every live object is intact, whatever aliasing earlier results introduced; item assignment / set_info change only the addressed location "
+         "(C10_frame_histories, C10_frame_at_every_point, C10_setitem_local, C10_frame_with_setitems). The summaries are VALIDATED on every run by deep snapshots of every live object "
+         "and every caller-supplied array around every call of 16 modelled + 25 unmodelled operation kinds and the process-module analyses. Tables regenerated from the source: the "
+         "__setattr__/__setitem__ guards and all 63 in-place array updates with the provenance of their target (fresh local / self.values / self._metadata; the one parameter writer "
+         "_compute_spectral_inversion is admissible because all its call sites pass fresh arrays) are checked by forallb/vm_compute; every container write that must be rejected is tried.",
+    note="Trusted: Coq kernel; the translator; the dynamic snapshot monitor (refinement-plus-monitoring, weaker than the kernel theorems: stated in DESIGN.md section 7). "
+         "Scope: rejection is read at the container API; raw ndarrays handed out by .values/.start/.t are writable NumPy arrays.",
+    technique="heap frame theorem over histories + translator-regenerated guard/in-place tables (forallb/vm_compute) + snapshot monitoring of every call",
+    design="5 C10")
+CLAIMED["C19"] = dict(
+    text="PARTIAL proof: for all signals, epochs, n, fs > 0, overlaps and parities pynapple's own bookkeeping is proved: restriction to the epoch, crop/pad, the sorted fftfreq index, "
+         "the 1/n and 1/(fs n) scales, the one-sided doubling (mask k > 0; every one-sided row is below Nyquist) unconditionally, the _overlap_split segments and the min-length "
+         "truncation with windowed averaging; Parseval, the one-sided totals (even n: full total minus the Nyquist bin - recorded behaviour) and 'mean PSD = average of windowed "
+         "periodograms' are derived from Parseval/Hermitian hypotheses on the FFT. The pre-repair mask is documented as mask_orig with its refutation witness.",
+    note="Trusted: np.fft.fft as parameter dft with visible hypotheses length_law, parseval_at, hermitian_at; the Hamming window (only its length is used); floats idealised as an "
+         "abstract characteristic-0 field (instantiated non-vacuously by Qc with an exact 4-point DFT); the harness ties the model to /repo through a direct O(n^2) DFT oracle and "
+         "exact discrete recoveries (k list, psd/|X|^2 snapped to {1,2}/(fs n), segments); values and Parseval to 1e-9 relative.",
+    technique="Coq proof over an executable model with the FFT as a Section variable + extracted-model/implementation correspondence + statement oracle",
+    design="5 C19")
 REASON_TODO = "check not built yet in this round (planned: DESIGN.md section 5)"
 m = {
     "version": 1,
